@@ -37,7 +37,7 @@ const netName gpbft.NetworkName = "verif-c20"
 // certificate generator (vsig stand-in signatures, constant 4-member equal-power table)
 
 type certGen struct {
-	mu sync.Mutex
+	mu    sync.Mutex
 	pt    gpbft.PowerEntries
 	supp  gpbft.SupplementalData
 	base  *gpbft.TipSet
@@ -190,7 +190,7 @@ type rig struct {
 	reqs    []reqRec
 
 	// hooks set by the driving oracle
-	latency  func(srv int) time.Duration          // injected request latency (mock clock)
+	latency  func(srv int) time.Duration            // injected request latency (mock clock)
 	visible  func(s *server, now time.Duration) int // how many produced certificates server s has at `now`
 	onGate   func(srv int, round int, now time.Duration)
 	localPut func(srv int) bool // whether to copy the next certificate into the client's own store while the request to srv is in flight
